@@ -6,10 +6,20 @@ import JoblibProofs.Lemmas.StoreFacts
 namespace JoblibModel.Store
 
 section
-variable (π : Par) (s : Bool) (lvl : Level) (me : Nat) (R : FS → FS → Prop)
+variable (π : Par) (s : Bool) (lvl : Level) (me : Nat) (R : FS → FS → Prop) (strong : Prop)
 
-/-- own calls are judged at level `clear` (a call whose `func_code.py` does not match empties the function directory) -/
-abbrev OwnG : FS → Op → Prop := fun fs o => Allowed π .clear (fun x => x = me) fs o
+/-- every result file present holds the value of the live source -/
+def LiveOut (fs : FS) : Prop := ∀ a i d, fs.get (pOut a) = some (.file i d) → d = π.cd.pickle ⟨π.ver, a⟩
+
+/-- `func_code.py` is only completed (made equal to the text of the live source) when every result present is of the
+live source; otherwise only a strict prefix is written onto the empty file (a torn write) -/
+def CodeSafe (fs : FS) (o : Op) : Prop :=
+  ∀ p i d c, o = .write p i d → fs.get pCode = some (.file i c) →
+    LiveOut π fs ∨ (c = [] ∧ d <+: π.cd.codeText π.ver ∧ d ≠ π.cd.codeText π.ver)
+
+/-- own calls are judged at level `clear` (a call whose `func_code.py` does not match empties the function directory);
+`strong`: additionally the participant never completes `func_code.py` next to results of another source -/
+abbrev OwnG : FS → Op → Prop := fun fs o => Allowed π .clear (fun x => x = me) fs o ∧ (strong → CodeSafe π fs o)
 
 /-- knowledge of a directory, where the environment cannot take it away -/
 def DK (q : Path) (fs : FS) : Prop := Protected lvl q → IsDirAt q fs
@@ -34,7 +44,7 @@ def OwnFull (P : FS → Prop) : Prop := ∀ fs o, P fs → Allowed π .calls (fu
 /-- exceptions are only excused when the environment may clear the cache -/
 def EL : Err → FS → Prop := fun _ _ => lvl = .clear
 
-variable {π s lvl me R}
+variable {π s lvl me R strong}
 
 theorem stable_sub {P : FS → Prop} (hW : World π s lvl me R) (h : Stable (Env π lvl me) P) :
     Stable R P := fun fs fs' hp hR => h _ _ hp (hW.sub _ _ hR)
@@ -75,17 +85,35 @@ theorem own_noop {lvl' : Level} {fs : FS} {o : Op} (hw : ∀ p i d, o ≠ .write
 
 theorem stat_noop (p : Path) (fs : FS) : (apply (.stat p) fs).2 = fs := rfl
 
-theorem own_up {fs : FS} {o : Op} (ha : Allowed π .calls (fun x => x = me) fs o) : OwnG π me fs o :=
-  ha.mono_level (Or.inl rfl)
+theorem own_up {fs : FS} {o : Op} (hnw : ∀ p i d, o ≠ .write p i d) (ha : Allowed π .calls (fun x => x = me) fs o) :
+    OwnG π me strong fs o :=
+  ⟨ha.mono_level (Or.inl rfl), fun _ p i d _ e => absurd e (hnw p i d)⟩
 
-theorem own_up' : ∀ fs o, Allowed π .calls (fun x => x = me) fs o → OwnG π me fs o := fun _ _ ha => own_up ha
+theorem own_up' : ∀ fs o, (∀ p i d, o ≠ .write p i d) → Allowed π .calls (fun x => x = me) fs o → OwnG π me strong fs o :=
+  fun _ _ hnw ha => own_up hnw ha
+
+theorem own_obs {fs : FS} {o : Op} (hw : ∀ p i d, o ≠ .write p i d) (h : (apply o fs).2 = fs) : OwnG π me strong fs o :=
+  ⟨.noop o hw h, fun _ p i d _ e => absurd e (hw p i d)⟩
+
+theorem own_write_other {fs : FS} {p p' : Path} {i : Nat} {d : Bytes} (hl : LocOnly i p fs) (hne : p ≠ pCode)
+    (ha : Allowed π .calls (fun x => x = me) fs (.write p' i d)) : OwnG π me strong fs (.write p' i d) :=
+  ⟨ha.mono_level (Or.inl rfl), fun _ p1 i1 d1 c e hg => by
+    cases e
+    exact absurd (hl.2 pCode (Or.inl ⟨c, hg⟩)).symm hne⟩
+
+/-- a write through an inode located only at `p ≠ func_code.py` cannot touch `func_code.py` -/
+theorem codeSafe_other {fs : FS} {p p' : Path} {i : Nat} {d : Bytes} (hl : LocOnly i p fs) (hne : p ≠ pCode) :
+    CodeSafe π fs (.write p' i d) := by
+  intro p1 i1 d1 c e hg
+  cases e
+  exact absurd (hl.2 pCode (Or.inl ⟨c, hg⟩)).symm hne
 
 /-- `os.path.exists(p)`: nothing changes, nothing is learnt -/
 theorem exists_sat {R : FS → FS → Prop} {G : FS → Op → Prop} {P : FS → Prop} {E : Err → FS → Prop}
-    (hG : ∀ fs o, Allowed π .calls (fun x => x = me) fs o → G fs o) (hP : Stable R P) (p : Path) :
+    (hG : ∀ fs o, (∀ p i d, o ≠ .write p i d) → Allowed π .calls (fun x => x = me) fs o → G fs o) (hP : Stable R P) (p : Path) :
     Sat R G P (exists_ p) (fun _ fs => P fs) E := by
   unfold exists_
-  refine Sat.obs (fun _ _ => True) (fun fs _ => hG _ _ (.noop _ (by intro _ _ _ e; cases e) rfl)) (stat_noop p)
+  refine Sat.obs (fun _ _ => True) (fun fs _ => hG _ _ (by intro _ _ _ e; cases e) (.noop _ (by intro _ _ _ e; cases e) rfl)) (stat_noop p)
     (fun _ _ => trivial) hP (fun _ _ _ _ _ => trivial) (fun r => .ret fun fs h => h.1)
 
 theorem dirShaped_get {fs : FS} {p : Path} (hi : Inv π s fs) (hd : DirShaped p) (h : (fs.get p).isSome = true) :
@@ -99,11 +127,11 @@ theorem dirShaped_get {fs : FS} {p : Path} (hi : Inv π s fs) (hd : DirShaped p)
 
 /-- `os.path.exists(p)` for a directory-shaped path: a positive answer is knowledge (where protected) -/
 theorem exists_dir_sat {G : FS → Op → Prop} {P : FS → Prop} {E : Err → FS → Prop}
-    (hG : ∀ fs o, Allowed π .calls (fun x => x = me) fs o → G fs o) (hW : World π s lvl me R) (hP : Stable R P)
+    (hG : ∀ fs o, (∀ p i d, o ≠ .write p i d) → Allowed π .calls (fun x => x = me) fs o → G fs o) (hW : World π s lvl me R) (hP : Stable R P)
     (hI : ∀ fs, P fs → Inv π s fs) (p : Path) (hd : DirShaped p) :
     Sat R G P (exists_ p) (fun b fs => P fs ∧ (b = true → DK lvl p fs)) E := by
   unfold exists_
-  refine Sat.obs (fun r fs => r = .yes → DK lvl p fs) (fun fs _ => hG _ _ (.noop _ (by intro _ _ _ e; cases e) rfl)) (stat_noop p)
+  refine Sat.obs (fun r fs => r = .yes → DK lvl p fs) (fun fs _ => hG _ _ (by intro _ _ _ e; cases e) (.noop _ (by intro _ _ _ e; cases e) rfl)) (stat_noop p)
     ?_ hP ?_ (fun r => .ret fun fs h => ⟨h.1, fun hb => h.2 (by simpa using hb)⟩)
   · intro fs hp hr _
     simp only [apply] at hr
@@ -147,7 +175,7 @@ theorem mkdir_keeps_code (p : Path) (hd : DirShaped p) (fs : FS) :
       exact dir_not_file hd (Or.inr (Or.inl rfl)))
 
 /-- `os.mkdir(p)` below a core directory -/
-theorem mkdir1_sat {G : FS → Op → Prop} {P : FS → Prop} (hG : ∀ fs o, Allowed π .calls (fun x => x = me) fs o → G fs o)
+theorem mkdir1_sat {G : FS → Op → Prop} {P : FS → Prop} (hG : ∀ fs o, (∀ p i d, o ≠ .write p i d) → Allowed π .calls (fun x => x = me) fs o → G fs o)
     (hW : World π s lvl me R) (hP : Good π s me R P) (p : Path) (hd : DirShaped p) (hpar : Core (parent p)) :
     Sat R G (fun fs => P fs ∧ DK lvl (parent p) fs) (mkdir1 p)
       (fun _ fs => P fs ∧ DK lvl p fs)
@@ -157,7 +185,7 @@ theorem mkdir1_sat {G : FS → Op → Prop} {P : FS → Prop} (hG : ∀ fs o, Al
       (r ≠ .ok → r ≠ .eexist → lvl = .clear)) ?_ ?_ ?_
   · intro fs ⟨hs, hdk⟩
     have ha : Allowed π .calls (fun x => x = me) fs (.mkdir p) := .mkdir p hd
-    refine ⟨hG _ _ ha, hP.own _ _ hs ha (mkdir_keeps_code p hd fs), ?_, ?_⟩
+    refine ⟨hG _ _ (by intro _ _ _ e; cases e) ha, hP.own _ _ hs ha (mkdir_keeps_code p hd fs), ?_, ?_⟩
     · intro hr _
       rcases mkdir_spec p fs with ⟨e, hne⟩ | ⟨_, _, _, _, _, hg⟩
       · rw [e]
@@ -224,7 +252,7 @@ theorem dk_root (fs : FS) : DK lvl [] fs := fun _ => ⟨0, by simp⟩
 theorem parent_length (p : Path) : (parent p).length = p.length - 1 := by simp [parent]
 
 /-- `os.makedirs(p)` -/
-theorem makedirs_sat {G : FS → Op → Prop} {P : FS → Prop} (hG : ∀ fs o, Allowed π .calls (fun x => x = me) fs o → G fs o)
+theorem makedirs_sat {G : FS → Op → Prop} {P : FS → Prop} (hG : ∀ fs o, (∀ p i d, o ≠ .write p i d) → Allowed π .calls (fun x => x = me) fs o → G fs o)
     (hW : World π s lvl me R) (hP : Good π s me R P) (fuel : Nat) :
     ∀ (p : Path), DirShaped p → Core (parent p) → p.length ≤ fuel + 1 →
     Sat R G P (makedirs fuel p)
@@ -247,7 +275,7 @@ theorem makedirs_sat {G : FS → Op → Prop} {P : FS → Prop} (hG : ∀ fs o, 
     · rw [if_neg hp]
       have hpd : DirShaped (parent p) := (core_shape hc).resolve_left hp
       refine Sat.obs (fun r fs => r = .yes → DK lvl (parent p) fs)
-        (fun fs _ => hG _ _ (.noop _ (by intro _ _ _ e; cases e) rfl)) (stat_noop _) ?_ hP.stable ?_ ?_
+        (fun fs _ => hG _ _ (by intro _ _ _ e; cases e) (.noop _ (by intro _ _ _ e; cases e) rfl)) (stat_noop _) ?_ hP.stable ?_ ?_
       · intro fs hs hr _
         simp only [apply] at hr
         split at hr
@@ -276,7 +304,7 @@ theorem makedirs_sat {G : FS → Op → Prop} {P : FS → Prop} (hG : ∀ fs o, 
             exact .raise fun fs h => ⟨h.1, fun e' => absurd e' he, fun _ => h.2.2 he⟩
 
 /-- `joblib.disk.mkdirp(p)` -/
-theorem mkdirp_sat {G : FS → Op → Prop} {P : FS → Prop} (hG : ∀ fs o, Allowed π .calls (fun x => x = me) fs o → G fs o)
+theorem mkdirp_sat {G : FS → Op → Prop} {P : FS → Prop} (hG : ∀ fs o, (∀ p i d, o ≠ .write p i d) → Allowed π .calls (fun x => x = me) fs o → G fs o)
     (hW : World π s lvl me R) (hP : Good π s me R P) (p : Path) (hd : DirShaped p) (hc : Core (parent p)) :
     Sat R G P (mkdirp p)
       (fun _ fs => P fs ∧ DK lvl p fs) (fun _ fs => P fs ∧ lvl = .clear) := by
@@ -322,10 +350,11 @@ theorem write_keeps_code {fs : FS} {p p' : Path} {i : Nat} {d : Bytes} (hl : Loc
         exact absurd (hl.2 pCode (Or.inl ⟨c, hg⟩)).symm hne
       · simp [wr, hji]
 
-theorem inplace_sat {G : FS → Op → Prop} {P : FS → Prop} (hG : ∀ fs o, Allowed π .calls (fun x => x = me) fs o → G fs o)
+theorem inplace_sat {G : FS → Op → Prop} {P : FS → Prop} (hG : ∀ fs o, (∀ p i d, o ≠ .write p i d) → Allowed π .calls (fun x => x = me) fs o → G fs o)
     (hW : World π s lvl me R) (hP : Good π s me R P) (p : Path)
     (hp : p = pGit ∨ p = pCode) (d : Bytes)
-    (hd : p = pCode → d <+: π.cd.codeText π.ver) (hfull : p = pCode → OwnFull π me P) :
+    (hd : p = pCode → d <+: π.cd.codeText π.ver) (hfull : p = pCode → OwnFull π me P)
+    (hGw : ∀ fs i, P fs → LocOnly i p fs → Allowed π .calls (fun x => x = me) fs (.write p i d) → G fs (.write p i d)) :
     Sat R G (fun fs => P fs ∧ DK lvl (parent p) fs) (inplace p d)
       (fun _ fs => P fs ∧ DK lvl (parent p) fs) (fun _ fs => P fs ∧ lvl = .clear) := by
   have hmine : Mine me p := by rcases hp with rfl | rfl; exact Or.inr (Or.inr rfl); exact Or.inr (Or.inl rfl)
@@ -353,7 +382,7 @@ theorem inplace_sat {G : FS → Op → Prop} {P : FS → Prop} (hG : ∀ fs o, A
   · intro fs ⟨h1, h2⟩
     have ha : Allowed π .calls (fun x => x = me) fs (.creat p) :=
       .creat p (by rcases hp with rfl | rfl; exact Or.inr (Or.inl rfl); exact Or.inr (Or.inr rfl))
-    refine ⟨hG _ _ ha, step _ _ h1 ha (fun e => creat_keeps_code p (by rw [e]; simp [pGit, pCode]) fs),
+    refine ⟨hG _ _ (by intro _ _ _ e; cases e) ha, step _ _ h1 ha (fun e => creat_keeps_code p (by rw [e]; simp [pGit, pCode]) fs),
       fun hpr => dir_stable (h2 hpr) ha trivial, ?_, ?_⟩
     · intro i hr
       exact (own_creat (hP.inv _ h1).wf hr).1
@@ -391,7 +420,7 @@ theorem inplace_sat {G : FS → Op → Prop} {P : FS → Prop} (hG : ∀ fs o, A
       refine .op (fun _ fs => P fs ∧ DK lvl (parent p) fs) ?_ ?_ (fun _ => .ret fun fs h => h)
       · intro fs ⟨h1, h2, h3, _⟩
         have ha : Allowed π .calls (fun x => x = me) fs (.write p i d) := own_write_allowed hmine (h3 i rfl) hd
-        exact ⟨hG _ _ ha, step _ _ h1 ha (fun e => write_keeps_code (h3 i rfl) (by rw [e]; simp [pGit, pCode])),
+        exact ⟨hGw _ _ h1 (h3 i rfl) ha, step _ _ h1 ha (fun e => write_keeps_code (h3 i rfl) (by rw [e]; simp [pGit, pCode])),
           fun hpr => dir_stable (h2 hpr) ha trivial⟩
       · rintro _ fs fs' ⟨h1, h2⟩ hR
         exact ⟨hP.stable _ _ h1 hR, dk_stable hW _ _ _ h2 hR⟩
@@ -437,7 +466,8 @@ theorem el_of {P P' : FS → Prop} {α : Type} {p : Prog α} {Q : α → FS → 
   h.post (fun _ _ h => h) (fun _ _ h => h.2)
 
 /-- `FileSystemStoreBackend.configure` -/
-theorem configure_sat {G : FS → Op → Prop} {P : FS → Prop} (hG : ∀ fs o, Allowed π .calls (fun x => x = me) fs o → G fs o)
+theorem configure_sat {G : FS → Op → Prop} {P : FS → Prop} (hG : ∀ fs o, (∀ p i d, o ≠ .write p i d) → Allowed π .calls (fun x => x = me) fs o → G fs o)
+    (hGw : ∀ fs i d, LocOnly i pGit fs → Allowed π .calls (fun x => x = me) fs (.write pGit i d) → G fs (.write pGit i d))
     (hW : World π s lvl me R) (hP : Good π s me R P) (c : Cfg) :
     Sat R G P (configure c) (fun _ fs => P fs ∧ DK lvl pLoc fs) (fun _ fs => P fs ∧ lvl = .clear) := by
   rw [configure_eq]
@@ -449,7 +479,7 @@ theorem configure_sat {G : FS → Op → Prop} {P : FS → Prop} (hG : ∀ fs o,
     | false =>
       exact ((mkdirp_sat hG hW hP pLoc hd (Or.inr (Or.inl rfl))).pre fun fs h => h.1)
   · have := inplace_sat hG hW (hP.and_dk hW pLoc) pGit (Or.inl rfl) c.codec.gitText (by intro e; cases e)
-      (by intro e; simp [pGit, pCode] at e)
+      (by intro e; simp [pGit, pCode] at e) (fun fs i _ hl ha => hGw fs i _ hl ha)
     refine (this.pre ?_).post (fun _ fs h => h.1) (fun _ _ h => ⟨h.1.1, h.2⟩)
     intro fs h
     refine ⟨h, fun _ => ?_⟩
@@ -457,7 +487,7 @@ theorem configure_sat {G : FS → Op → Prop} {P : FS → Prop} (hG : ∀ fs o,
 
 /-- `store_cached_func_code([func_id])` (no code): make sure the function directory exists -/
 theorem ensureFuncDir_sat {P : FS → Prop} (hW : World π s lvl me R) (hP : Good π s me R P) :
-    Sat R (OwnG π me) P ensureFuncDir (fun _ fs => P fs ∧ DK lvl pFunc fs) (fun _ fs => P fs ∧ lvl = .clear) := by
+    Sat R (OwnG π me strong) P ensureFuncDir (fun _ fs => P fs ∧ DK lvl pFunc fs) (fun _ fs => P fs ∧ lvl = .clear) := by
   unfold ensureFuncDir
   have hd : DirShaped pFunc := Or.inr (Or.inr (Or.inr (Or.inl rfl)))
   refine Sat.bind (exists_dir_sat own_up' hW hP.stable hP.inv pFunc hd) fun e => ?_
@@ -467,13 +497,117 @@ theorem ensureFuncDir_sat {P : FS → Prop} (hW : World π s lvl me R) (hP : Goo
 
 /-- `_write_func_code` → `store_cached_func_code([func_id], code)` -/
 theorem writeFuncCode_sat {P : FS → Prop} (hW : World π s lvl me R) (hP : Good π s me R P) (hF : OwnFull π me P)
-    (c : Cfg) (hc : CfgOK π me c) :
-    Sat R (OwnG π me) P (writeFuncCode c) (fun _ fs => P fs ∧ DK lvl pFunc fs) (fun _ fs => P fs ∧ lvl = .clear) := by
+    (c : Cfg) (hc : CfgOK π me c) (hlive : strong → ∀ fs, P fs → LiveOut π fs) :
+    Sat R (OwnG π me strong) P (writeFuncCode c) (fun _ fs => P fs ∧ DK lvl pFunc fs) (fun _ fs => P fs ∧ lvl = .clear) := by
   rw [writeFuncCode_eq]
   refine Sat.bind (ensureFuncDir_sat hW hP) fun _ => ?_
   have := inplace_sat own_up' hW hP pCode (Or.inr rfl) (c.codec.codeText c.ver)
     (by intro _; rw [hc.cd, hc.ver]; exact List.prefix_refl _) (fun _ => hF)
+    (fun fs i hp _ ha => ⟨ha.mono_level (Or.inl rfl), fun hs p1 i1 d1 c1 e hg => Or.inl (hlive hs fs hp)⟩)
   exact this
+
+
+/-! ### Programs that only observe; `reduce_size` and `clear` -/
+
+def IsObs (o : Op) : Prop :=
+  (∃ p, o = .stat p) ∨ (∃ p, o = .openr p) ∨ (∃ p i, o = .read p i) ∨ (∃ p, o = .opendir p) ∨ (∃ p i, o = .readdir p i)
+
+inductive ObsOnly {α : Type} : Prog α → Prop
+  | ret (a : α) : ObsOnly (.ret a)
+  | raise (e : Err) : ObsOnly (.raise e)
+  | op (o : Op) (k : Res → Prog α) : IsObs o → (∀ r, ObsOnly (k r)) → ObsOnly (.op o k)
+
+theorem ObsOnly.bind {α β : Type} {p : Prog α} {f : α → Prog β} (hp : ObsOnly p) (hf : ∀ a, ObsOnly (f a)) :
+    ObsOnly (p.bind f) := by
+  induction hp with
+  | ret a => exact hf a
+  | raise e => exact .raise e
+  | op o k ho _ ih => exact .op o _ ho ih
+
+theorem isObs_not_write {o : Op} (h : IsObs o) : ∀ p i d, o ≠ .write p i d := by
+  intro p i d e
+  rcases h with ⟨_, rfl⟩ | ⟨_, rfl⟩ | ⟨_, _, rfl⟩ | ⟨_, rfl⟩ | ⟨_, _, rfl⟩ <;> cases e
+
+theorem obsOnly_sat {α : Type} {G : FS → Op → Prop} {P : FS → Prop} {p : Prog α}
+    (hG : ∀ fs o, (∀ p i d, o ≠ .write p i d) → (apply o fs).2 = fs → G fs o) (hP : Stable R P) (h : ObsOnly p) :
+    Sat R G P p (fun _ fs => P fs) (fun _ fs => P fs) := by
+  induction h with
+  | ret a => exact .ret fun fs h => h
+  | raise e => exact .raise fun fs h => h
+  | op o k ho _ ih =>
+    refine .op (fun _ fs => P fs) (fun fs h => ?_) (fun _ => hP) ih
+    have := observer_noop o fs ho
+    exact ⟨hG fs o (isObs_not_write ho) this, by rw [this]; exact h⟩
+
+theorem obsOnly_foldr_stat {α : Type} (l : List α) (f : α → Path) (tl : Prog Unit) (ht : ObsOnly tl) :
+    ObsOnly (l.foldr (fun d acc => Prog.op (.stat (f d)) fun _ => acc) tl) := by
+  induction l with
+  | nil => exact ht
+  | cons x r ih => exact .op _ _ (Or.inl ⟨_, rfl⟩) fun _ => ih
+
+theorem obsOnly_itemStats (a : Nat) (files : List (Name × Bool)) : ObsOnly (itemStats a files) := by
+  unfold itemStats
+  have sizes : ∀ fl : List (Name × Bool), ObsOnly (fl.foldr (fun nf acc =>
+      Prog.op (.stat (pEntry a ++ [nf.1])) fun r => if r == .yes then acc else Prog.ret false) (Prog.ret true)) := by
+    intro fl
+    induction fl with
+    | nil => exact .ret _
+    | cons x r ih =>
+      refine .op _ _ (Or.inl ⟨_, rfl⟩) fun res => ?_
+      by_cases h : (res == Res.yes) = true
+      · rw [if_pos h]; exact ih
+      · rw [if_neg h]; exact .ret _
+  refine .op _ _ (Or.inl ⟨_, rfl⟩) fun r => ?_
+  by_cases h : (r == Res.yes) = true
+  · simp only [h, if_true]; exact sizes files
+  · simp only [h, if_false]
+    refine .op _ _ (Or.inl ⟨_, rfl⟩) fun r' => ?_
+    by_cases h' : (r' == Res.yes) = true
+    · simp only [h', if_true]; exact sizes files
+    · simp only [h', if_false]; exact .ret _
+
+theorem obsOnly_walk (rank : Name → Nat) : ∀ (fuel : Nat) (p : Path), ObsOnly (walk rank fuel p) := by
+  intro fuel
+  induction fuel with
+  | zero => intro p; exact .ret _
+  | succ fuel ih =>
+    intro p
+    unfold walk
+    refine .op _ _ (Or.inr (Or.inr (Or.inr (Or.inl ⟨_, rfl⟩)))) fun r => ?_
+    cases r with
+    | fd i =>
+      unfold scandir
+      refine .op _ _ (Or.inr (Or.inr (Or.inr (Or.inr ⟨_, _, rfl⟩)))) fun r => ?_
+      have body : ∀ l : List (Name × Bool), ObsOnly (
+          (fun l : List (Name × Bool) =>
+            let dirs := l.filter (·.2)
+            let files := l.filter (fun x => !x.2)
+            let here : Prog (List Nat) :=
+              match p.getLast? with
+              | some (.entry a) => if p = pEntry a then (itemStats a files).bind fun b => Prog.ret (if b then [a] else []) else Prog.ret []
+              | _ => Prog.ret []
+            here.bind fun found =>
+            (dirs.reverse.foldr (fun d acc => Prog.op (.stat (p ++ [d.1])) fun _ => acc) (Prog.ret ())).bind fun _ =>
+            (dirs.foldr (fun d acc => (walk rank fuel (p ++ [d.1])).bind fun f1 => acc.bind fun f2 => Prog.ret (f1 ++ f2))
+              (Prog.ret [])).bind fun sub => Prog.ret (found ++ sub)) l) := by
+        intro l
+        simp only []
+        refine ObsOnly.bind ?_ fun found => ?_
+        · split
+          · split
+            · exact (obsOnly_itemStats _ _).bind fun _ => .ret _
+            · exact .ret _
+          · exact .ret _
+        · refine ObsOnly.bind (obsOnly_foldr_stat _ _ _ (.ret _)) fun _ => ?_
+          refine ObsOnly.bind ?_ fun _ => .ret _
+          generalize (l.filter (·.2)) = dl
+          induction dl with
+          | nil => exact .ret _
+          | cons x r ihl => exact (ih _).bind fun _ => ihl.bind fun _ => .ret _
+      cases r with
+      | names l => exact body _
+      | _ => exact body []
+    | _ => exact .ret _
 
 
 /-! ### Removing a directory tree -/
@@ -500,11 +634,11 @@ theorem below_trans {p0 t : Path} (h : Below pLoc p0) (ht : p0 <+: t) : Below pL
   have l2 := ht.length_le
   exact h.2 (ht.eq_of_length (by omega))
 
-theorem own_unlink {p0 t : Path} {fs : FS} (h : Below pLoc p0) (ht : p0 <+: t) : OwnG π me fs (.unlink t) :=
-  .unlinkC t rfl (below_trans h ht)
+theorem own_unlink {p0 t : Path} {fs : FS} (h : Below pLoc p0) (ht : p0 <+: t) : OwnG π me strong fs (.unlink t) :=
+  ⟨.unlinkC t rfl (below_trans h ht), fun _ p i d _ e => by cases e⟩
 
-theorem own_rmdir {p0 t : Path} {fs : FS} (h : Below pLoc p0) (ht : p0 <+: t) : OwnG π me fs (.rmdir t) :=
-  .rmdirC t rfl (below_trans h ht)
+theorem own_rmdir {p0 t : Path} {fs : FS} (h : Below pLoc p0) (ht : p0 <+: t) : OwnG π me strong fs (.rmdir t) :=
+  ⟨.rmdirC t rfl (below_trans h ht), fun _ p i d _ e => by cases e⟩
 
 theorem opendir_noop (p : Path) (fs : FS) : (apply (.opendir p) fs).2 = fs := by
   simp only [apply]; split <;> rfl
@@ -652,703 +786,6 @@ theorem rmtree_sat {G : FS → Op → Prop} {P : FS → Prop} {p0 : Path} (hP : 
   · have : (r != Res.yes) = true := by simpa using hr
     simp only [this, if_true]
     exact (skip _).pre fun fs h => h.1
-
-
-theorem dir_keep_unlink {fs : FS} {q t : Path} (h : IsDirAt q fs) : IsDirAt q (apply (.unlink t) fs).2 := by
-  obtain ⟨j, hj⟩ := h
-  rcases unlink_spec t fs with ⟨e, _⟩ | ⟨i0, c0, ht, _, _, _, hg⟩
-  · rw [e]; exact ⟨j, hj⟩
-  · by_cases h0 : q = []
-    · subst h0; exact ⟨0, by simp⟩
-    · exact ⟨j, by rw [hg, getUpd_ne h0 (by rintro rfl; rw [hj] at ht; cases ht)]; exact hj⟩
-
-theorem dir_keep_rmdir {fs : FS} {q t : Path} (h : IsDirAt q fs) (hne : q ≠ t) : IsDirAt q (apply (.rmdir t) fs).2 := by
-  obtain ⟨j, hj⟩ := h
-  rcases rmdir_spec t fs with ⟨e, _⟩ | ⟨_, _, _, _, _, _, _, hg⟩
-  · rw [e]; exact ⟨j, hj⟩
-  · by_cases h0 : q = []
-    · subst h0; exact ⟨0, by simp⟩
-    · exact ⟨j, by rw [hg, getUpd_ne h0 hne]; exact hj⟩
-
-theorem func_below : Below pLoc pFunc := ⟨⟨[.mod, .func], rfl⟩, by simp [pLoc, pFunc]⟩
-theorem entry_below (a : Nat) : Below pLoc (pEntry a) := ⟨⟨[.mod, .func, .entry a], rfl⟩, by simp [pLoc, pEntry]⟩
-
-theorem rmGood_inv_func (hW : World π s lvl me R) : RmGood (R := R) (OwnG π me) (Inv π s) pFunc :=
-  ⟨stable_sub hW inv_stable_env,
-   fun fs t h ht => ⟨inv_apply h (own_unlink (π := π) (me := me) func_below ht),
-                     inv_apply h (own_rmdir (π := π) (me := me) func_below ht)⟩,
-   fun fs o hw e => own_noop hw e,
-   fun fs t _ ht => own_unlink func_below ht,
-   fun fs t _ ht => own_rmdir func_below ht⟩
-
-/-- the standing assertion of a call once the function directory is known -/
-def Sf (π : Par) (s : Bool) (lvl : Level) (fs : FS) : Prop := Inv π s fs ∧ DK lvl pFunc fs
-
-theorem good_sf (hW : World π s lvl me R) : Good π s me R (Sf π s lvl) := (good_inv hW).and_dk hW pFunc
-
-theorem ownFull_sf : OwnFull π me (Sf π s lvl) := ownFull_inv.and_dk pFunc
-
-theorem rmGood_sf_entry (hW : World π s lvl me R) (a : Nat) :
-    RmGood (R := R) (OwnG π me) (Sf π s lvl) (pEntry a) := by
-  refine ⟨(good_sf hW).stable, fun fs t h ht => ?_, fun fs o hw e => own_noop hw e,
-    fun fs t _ ht => own_unlink (entry_below a) ht, fun fs t _ ht => own_rmdir (entry_below a) ht⟩
-  have hne : pFunc ≠ t := by
-    rintro rfl
-    have := ht.length_le
-    simp [pEntry, pFunc] at this
-  exact ⟨⟨inv_apply h.1 (own_unlink (π := π) (me := me) (entry_below a) ht), fun hp => dir_keep_unlink (h.2 hp)⟩,
-         ⟨inv_apply h.1 (own_rmdir (π := π) (me := me) (entry_below a) ht), fun hp => dir_keep_rmdir (h.2 hp) hne⟩⟩
-
-/-- `MemorizedFunc.clear()` -/
-theorem clearFunc_sat (hW : World π s lvl me R) (c : Cfg) (hc : CfgOK π me c) :
-    Sat R (OwnG π me) (Inv π s) (clearFunc c) (fun _ fs => Sf π s lvl fs) (EL lvl) := by
-  unfold clearFunc
-  refine Sat.bind (exists_sat own_up' (good_inv hW).stable pFunc) fun e => ?_
-  refine Sat.bind (Q' := fun _ fs => Inv π s fs) ?_ fun _ =>
-    (writeFuncCode_sat hW (good_inv hW) ownFull_inv c hc).post (fun _ _ h => h) (fun _ _ h => h.2)
-  cases e with
-  | true => exact (rmtree_sat (rmGood_inv_func hW) c.rank false).post (fun _ _ h => h) (fun _ _ h => by simp at h)
-  | false => exact .ret fun fs h => h
-
-/-- `clear_item(call_id)` -/
-theorem clearItem_sat (hW : World π s lvl me R) (c : Cfg) (a : Nat) :
-    Sat R (OwnG π me) (Sf π s lvl) (clearItem c a) (fun _ fs => Sf π s lvl fs) (EL lvl) := by
-  unfold clearItem
-  refine Sat.bind (exists_sat own_up' (good_sf hW).stable (pEntry a)) fun e => ?_
-  cases e with
-  | true => exact (rmtree_sat (rmGood_sf_entry hW a) c.rank false).post (fun _ _ h => h) (fun _ _ h => by simp at h)
-  | false => exact .ret fun fs h => h
-
-
-/-! ### Environments smaller than `Env` -/
-
-theorem Sat.mono_R {α : Type} {R R' : FS → FS → Prop} {G : FS → Op → Prop} {P : FS → Prop} {p : Prog α}
-    {Q : α → FS → Prop} {E : Err → FS → Prop} (h : Sat R G P p Q E) (hR : ∀ fs fs', R' fs fs' → R fs fs') :
-    Sat R' G P p Q E := by
-  induction h with
-  | ret h => exact .ret h
-  | raise h => exact .raise h
-  | op M h1 h2 _ ih => exact .op M h1 (fun r fs fs' hm hr => h2 r fs fs' hm (hR _ _ hr)) ih
-
-theorem inv_weaken {fs : FS} (h : Inv π true fs) : Inv π s fs :=
-  ⟨h.wf, h.typD, h.typF, fun a i d hg => by
-    obtain ⟨v, hv, hs⟩ := h.out a i d hg
-    exact ⟨v, hv, fun _ => hs rfl⟩, h.metaOk, h.up⟩
-
-theorem sf_weaken {fs : FS} (h : Sf π true lvl fs) : Sf π s lvl fs := ⟨inv_weaken h.1, h.2⟩
-
-/-- trust: when `func_code.py` compares equal to the live source, every result file is of the live version -/
-def TrustK (π : Par) (s : Bool) (fs : FS) : Prop :=
-  s = false → ∀ i d, fs.get pCode = some (.file i d) → π.cd.checkCode π.ver d = .same → Inv π true fs
-
-theorem trust_stable (hW : World π s lvl me R) : Stable R (TrustK π s) := by
-  intro fs fs' h hR hs
-  exact absurd hR (hW.alone hs _ _)
-
-theorem openr_noop (p : Path) (fs : FS) : (apply (.openr p) fs).2 = fs := by
-  simp only [apply]; split <;> rfl
-
-theorem read_noop (p : Path) (i : Nat) (fs : FS) : (apply (.read p i) fs).2 = fs := rfl
-
-/-- `_check_previous_func_code`: answers `true` only when every result file is of the live version -/
-theorem checkPrevious_sat (hW : World π s lvl me R) (c : Cfg) (hc : CfgOK π me c) :
-    Sat R (OwnG π me) (fun fs => Sf π s lvl fs ∧ TrustK π s fs) (checkPrevious c)
-      (fun b fs => Sf π s lvl fs ∧ (b = true → Inv π true fs)) (EL lvl) := by
-  unfold checkPrevious
-  have hS : Stable R (Sf π s lvl) := (good_sf hW).stable
-  have clr : Sat R (OwnG π me) (fun fs => Sf π s lvl fs) ((clearFunc c).bind fun _ => Prog.ret false)
-      (fun b fs => Sf π s lvl fs ∧ (b = true → Inv π true fs)) (EL lvl) := by
-    refine Sat.bind ((clearFunc_sat hW c hc).pre fun fs h => h.1) fun _ => ?_
-    exact .ret fun fs h => ⟨h, fun e => by cases e⟩
-  have wfc : Sat R (OwnG π me) (fun fs => Sf π s lvl fs) ((writeFuncCode c).bind fun _ => Prog.ret false)
-      (fun b fs => Sf π s lvl fs ∧ (b = true → Inv π true fs)) (EL lvl) := by
-    refine Sat.bind (((writeFuncCode_sat hW (good_inv hW) ownFull_inv c hc).post (fun _ _ h => h) (E' := EL lvl)
-      (fun _ _ h => h.2)).pre fun fs h => h.1) fun _ => ?_
-    exact .ret fun fs h => ⟨h, fun e => by cases e⟩
-  refine Sat.obs (fun r fs => ∀ i, r = .fd i → s = false → ∀ d, fs.readData pCode i = d →
-        π.cd.checkCode π.ver d = .same → Inv π true fs)
-    (fun fs _ => own_noop (by intro _ _ _ e; cases e) (openr_noop _ fs)) (openr_noop _) ?_
-    (hS.and (trust_stable hW)) ?_ ?_
-  · rintro fs ⟨_, htr⟩ i hr hs d hd hsame
-    simp only [apply] at hr
-    split at hr
-    · cases hr
-    · cases hr
-    · rename_i j c0 hg
-      cases hr
-      have : fs.readData pCode i = c0 := by unfold FS.readData; rw [hg]; simp
-      rw [this] at hd; subst hd
-      exact htr hs i _ hg hsame
-  · intro r fs fs' _ hR i _ hs
-    exact absurd hR (hW.alone hs _ _)
-  · intro r
-    cases r with
-    | fd i =>
-      refine Sat.obs (fun r fs => (∃ d, r = .data d) ∧
-          ∀ d, r = .data d → π.cd.checkCode π.ver d = .same → Inv π true fs)
-        (fun fs _ => own_noop (by intro _ _ _ e; cases e) rfl) (read_noop _ _) ?_
-        ((hS.and (trust_stable hW)).and ?_) ?_ ?_
-      · rintro fs ⟨⟨hsf, _⟩, hk⟩
-        refine ⟨⟨_, rfl⟩, fun d hr hsame => ?_⟩
-        simp only [apply] at hr
-        cases hr
-        cases hs : s with
-        | true => subst hs; exact hsf.1
-        | false => exact hk i rfl hs _ rfl hsame
-      · intro fs fs' _ hR i _ hs
-        exact absurd hR (hW.alone hs _ _)
-      · intro r fs fs' h hR
-        exact ⟨h.1, fun d hr hsame => inv_stable_env _ _ (h.2 d hr hsame) (hW.sub _ _ hR)⟩
-      · intro r
-        cases r with
-        | data d =>
-          simp only
-          rw [hc.cd, hc.ver]
-          cases hcc : π.cd.checkCode π.ver d with
-          | same => exact .ret fun fs h => ⟨h.1.1.1, fun _ => h.2.2 d rfl hcc⟩
-          | differs => exact clr.pre fun fs h => h.1.1.1
-          | valueError => rw [hc.legacy]; exact clr.pre fun fs h => h.1.1.1
-        | ok => exact .raise fun fs h => by obtain ⟨d, hd⟩ := h.2.1; cases hd
-        | yes => exact .raise fun fs h => by obtain ⟨d, hd⟩ := h.2.1; cases hd
-        | no => exact .raise fun fs h => by obtain ⟨d, hd⟩ := h.2.1; cases hd
-        | enoent => exact .raise fun fs h => by obtain ⟨d, hd⟩ := h.2.1; cases hd
-        | eexist => exact .raise fun fs h => by obtain ⟨d, hd⟩ := h.2.1; cases hd
-        | enotempty => exact .raise fun fs h => by obtain ⟨d, hd⟩ := h.2.1; cases hd
-        | eisdir => exact .raise fun fs h => by obtain ⟨d, hd⟩ := h.2.1; cases hd
-        | enotdir => exact .raise fun fs h => by obtain ⟨d, hd⟩ := h.2.1; cases hd
-        | fd _ => exact .raise fun fs h => by obtain ⟨d, hd⟩ := h.2.1; cases hd
-        | names _ => exact .raise fun fs h => by obtain ⟨d, hd⟩ := h.2.1; cases hd
-    | ok => exact wfc.pre fun fs h => h.1.1
-    | yes => exact wfc.pre fun fs h => h.1.1
-    | no => exact wfc.pre fun fs h => h.1.1
-    | enoent => exact wfc.pre fun fs h => h.1.1
-    | eexist => exact wfc.pre fun fs h => h.1.1
-    | enotempty => exact wfc.pre fun fs h => h.1.1
-    | eisdir => exact wfc.pre fun fs h => h.1.1
-    | enotdir => exact wfc.pre fun fs h => h.1.1
-    | data _ => exact wfc.pre fun fs h => h.1.1
-    | names _ => exact wfc.pre fun fs h => h.1.1
-
-
-/-- `get_metadata`: two observing calls; whatever it answers, nothing changed -/
-theorem getMetadata_sat {R : FS → FS → Prop} {P : FS → Prop} {E : Err → FS → Prop} (hP : Stable R P) (c : Cfg) (a : Nat) :
-    Sat R (OwnG π me) P (getMetadata c a) (fun _ fs => P fs) E := by
-  unfold getMetadata
-  refine Sat.obs (fun _ _ => True) (fun fs _ => own_noop (by intro _ _ _ e; cases e) (openr_noop _ fs)) (openr_noop _)
-    (fun _ _ => trivial) hP (fun _ _ _ _ _ => trivial) fun r => ?_
-  cases r with
-  | fd i =>
-    refine Sat.obs (fun _ _ => True) (fun fs _ => own_noop (by intro _ _ _ e; cases e) rfl) (read_noop _ _)
-      (fun _ _ => trivial) (hP.and fun _ _ _ _ => trivial) (fun _ _ _ _ _ => trivial) fun r => ?_
-    cases r <;> exact .ret fun fs h => h.1.1
-  | ok => exact .ret fun fs h => h.1
-  | yes => exact .ret fun fs h => h.1
-  | no => exact .ret fun fs h => h.1
-  | enoent => exact .ret fun fs h => h.1
-  | eexist => exact .ret fun fs h => h.1
-  | enotempty => exact .ret fun fs h => h.1
-  | eisdir => exact .ret fun fs h => h.1
-  | enotdir => exact .ret fun fs h => h.1
-  | data _ => exact .ret fun fs h => h.1
-  | names _ => exact .ret fun fs h => h.1
-
-/-- `load_item`: in a directory whose result files are all of the live version, a successful load returns `f(a)`;
-a failure leaves everything as it was (the caller recomputes). -/
-theorem loadItem_sat (hW : World π true lvl me R) (c : Cfg) (hc : CfgOK π me c) (a : Nat)
-    (hU : ∀ v, π.cd.unpickle (π.cd.pickle v) = some v) :
-    Sat R (OwnG π me) (Sf π true lvl) (loadItem c a)
-      (fun v fs => Sf π true lvl fs ∧ v = ⟨π.ver, a⟩) (fun _ fs => Sf π true lvl fs) := by
-  unfold loadItem
-  have hS : Stable R (Sf π true lvl) := (good_sf hW).stable
-  refine Sat.bind (exists_sat own_up' hS (pOut a)) fun e => ?_
-  cases e with
-  | false => exact .raise fun fs h => h
-  | true =>
-    simp only [Bool.not_true, Bool.false_eq_true, if_false]
-    refine Sat.obs (fun r fs => ∀ i, r = .fd i → WF fs ∧ ReadK (pOut a) i (π.cd.pickle ⟨π.ver, a⟩) fs)
-      (fun fs _ => own_noop (by intro _ _ _ e; cases e) (openr_noop _ fs)) (openr_noop _) ?_ hS ?_ ?_
-    · intro fs hsf i hr
-      simp only [apply] at hr
-      split at hr
-      · cases hr
-      · cases hr
-      · rename_i j d hg
-        cases hr
-        obtain ⟨v, hv, hs⟩ := hsf.1.out a _ d hg
-        have := hs rfl
-        subst this
-        exact ⟨hsf.1.wf, Or.inl (by rw [hg, hv])⟩
-    · intro r fs fs' h hR i hr
-      exact readK_stable ⟨a, Or.inl rfl⟩ _ _ (h i hr) (hW.sub _ _ hR)
-    · intro r
-      cases r with
-      | fd i =>
-        refine Sat.obs (fun r fs => r = .data (π.cd.pickle ⟨π.ver, a⟩))
-          (fun fs _ => own_noop (by intro _ _ _ e; cases e) rfl) (read_noop _ _) ?_ (hS.and ?_)
-          (fun _ _ _ h _ => h) ?_
-        · intro fs h
-          simp only [apply]
-          rw [readK_read (h.2 i rfl).2]
-        · intro fs fs' h hR j hr
-          exact readK_stable ⟨a, Or.inl rfl⟩ _ _ (h j hr) (hW.sub _ _ hR)
-        · intro r
-          cases r with
-          | data d =>
-            simp only
-            rw [hc.cd]
-            cases hu : π.cd.unpickle d with
-            | some v =>
-              refine .ret fun fs h => ⟨h.1.1, ?_⟩
-              have hd : d = π.cd.pickle ⟨π.ver, a⟩ := by
-                have := h.2; simpa using this
-              rw [hd, hU] at hu; cases hu; rfl
-            | none => exact .raise fun fs h => h.1.1
-          | ok => exact .raise fun fs h => h.1.1
-          | yes => exact .raise fun fs h => h.1.1
-          | no => exact .raise fun fs h => h.1.1
-          | enoent => exact .raise fun fs h => h.1.1
-          | eexist => exact .raise fun fs h => h.1.1
-          | enotempty => exact .raise fun fs h => h.1.1
-          | eisdir => exact .raise fun fs h => h.1.1
-          | enotdir => exact .raise fun fs h => h.1.1
-          | fd _ => exact .raise fun fs h => h.1.1
-          | names _ => exact .raise fun fs h => h.1.1
-      | ok => exact .raise fun fs h => h.1
-      | yes => exact .raise fun fs h => h.1
-      | no => exact .raise fun fs h => h.1
-      | enoent => exact .raise fun fs h => h.1
-      | eexist => exact .raise fun fs h => h.1
-      | enotempty => exact .raise fun fs h => h.1
-      | eisdir => exact .raise fun fs h => h.1
-      | enotdir => exact .raise fun fs h => h.1
-      | data _ => exact .raise fun fs h => h.1
-      | names _ => exact .raise fun fs h => h.1
-
-
-/-- `_concurrency_safe_write`: the temporary is private, so the rename installs exactly what was written — or fails -/
-theorem safeWrite_sat {P : FS → Prop} (hW : World π s lvl me R) (hP : Good π s me R P) (hF : OwnFull π me P)
-    (a : Nat) (tmp final : Path) (d : Bytes)
-    (hk : (tmp = pTmpOut a me ∧ final = pOut a ∧ d = π.cd.pickle ⟨π.ver, a⟩) ∨
-          (tmp = pTmpMeta a me ∧ final = pMeta a ∧ d = π.cd.metaText)) :
-    Sat R (OwnG π me) P (safeWrite tmp final d) (fun _ fs => P fs) (fun _ fs => P fs) := by
-  have htmp : IsTmp (fun x => x = me) tmp := by
-    rcases hk with ⟨rfl, _, _⟩ | ⟨rfl, _, _⟩
-    · exact ⟨a, me, rfl, Or.inl rfl⟩
-    · exact ⟨a, me, rfl, Or.inr rfl⟩
-  have hmine : Mine me tmp := Or.inl htmp
-  have hnc : tmp ≠ pCode := by
-    rcases hk with ⟨rfl, _, _⟩ | ⟨rfl, _, _⟩ <;> simp [pTmpOut, pTmpMeta, pCode]
-  unfold safeWrite
-  refine .op (fun r fs => P fs ∧ ∀ i, r = .fd i → LocOnly i tmp fs ∧ TmpData tmp i [] fs) ?_ ?_ ?_
-  · intro fs h
-    have ha : Allowed π .calls (fun x => x = me) fs (.creat tmp) := .creat tmp (Or.inl htmp)
-    refine ⟨own_up ha, hF _ _ h ha, fun i hr => ?_⟩
-    obtain ⟨h1, h2⟩ := own_creat (hP.inv _ h).wf hr
-    exact ⟨h1, Or.inr h2⟩
-  · rintro r fs fs' ⟨h1, h2⟩ hR
-    refine ⟨hP.stable _ _ h1 hR, fun i hr => ?_⟩
-    exact ⟨locOnly_stable hmine _ _ (h2 i hr).1 (hW.sub _ _ hR), tmpData_stable htmp _ _ (h2 i hr).2 (hW.sub _ _ hR)⟩
-  · intro r
-    cases r with
-    | fd i =>
-      refine .op (fun _ fs => P fs ∧ TmpData tmp i d fs) ?_ ?_ ?_
-      · intro fs ⟨h1, h2⟩
-        have ha : Allowed π .calls (fun x => x = me) fs (.write tmp i d) :=
-          own_write_allowed hmine (h2 i rfl).1 (fun e => absurd e hnc)
-        refine ⟨own_up ha, hF _ _ h1 ha, ?_⟩
-        have := tmpData_write (p' := tmp) (d := d) (h2 i rfl).2
-        rwa [overwrite_nil] at this
-      · rintro _ fs fs' ⟨h1, h2⟩ hR
-        exact ⟨hP.stable _ _ h1 hR, tmpData_stable htmp _ _ h2 (hW.sub _ _ hR)⟩
-      · intro _
-        refine .op (fun _ fs => P fs) ?_ (fun _ => hP.stable) ?_
-        · intro fs ⟨h1, h2⟩
-          have ha : Allowed π .calls (fun x => x = me) fs (.rename tmp final) := by
-            rcases h2 with h2 | h2
-            · exact .noop _ (by intro _ _ _ e; cases e) (by simp [apply, h2])
-            · have hdat : fs.dataAt tmp = some d := by unfold FS.dataAt; rw [h2]
-              rcases hk with ⟨rfl, rfl, rfl⟩ | ⟨rfl, rfl, rfl⟩
-              · exact .renameOut a me rfl hdat
-              · exact .renameMeta a me rfl hdat
-          exact ⟨own_up ha, hF _ _ h1 ha⟩
-        · intro r
-          cases r <;> first | exact .ret fun fs h => h | exact .raise fun fs h => h
-    | ok => exact .raise fun fs h => h.1
-    | yes => exact .raise fun fs h => h.1
-    | no => exact .raise fun fs h => h.1
-    | enoent => exact .raise fun fs h => h.1
-    | eexist => exact .raise fun fs h => h.1
-    | enotempty => exact .raise fun fs h => h.1
-    | eisdir => exact .raise fun fs h => h.1
-    | enotdir => exact .raise fun fs h => h.1
-    | data _ => exact .raise fun fs h => h.1
-    | names _ => exact .raise fun fs h => h.1
-
-/-- `dump_item`: never raises -/
-theorem dumpItem_sat (hW : World π s lvl me R) (c : Cfg) (hc : CfgOK π me c) (a : Nat) :
-    Sat R (OwnG π me) (Sf π s lvl) (dumpItem c a ⟨c.ver, a⟩) (fun _ fs => Sf π s lvl fs) (fun _ _ => False) := by
-  unfold dumpItem
-  have hS : Stable R (Sf π s lvl) := (good_sf hW).stable
-  refine Sat.tryCatch (E1 := fun _ fs => Sf π s lvl fs) ?_ (fun _ => .ret fun fs h => h)
-  refine Sat.bind (exists_sat own_up' hS (pEntry a)) fun e => ?_
-  refine Sat.bind (Q' := fun _ fs => Sf π s lvl fs) ?_ fun _ => ?_
-  · cases e with
-    | true => exact .ret fun fs h => h
-    | false =>
-      have := mkdirp_sat own_up' hW (good_sf hW) (pEntry a) (Or.inr (Or.inr (Or.inr (Or.inr ⟨a, rfl⟩))))
-        (Or.inr (Or.inr (Or.inr (Or.inr rfl))))
-      exact this.post (fun _ _ h => h.1) (fun _ _ h => h.1)
-  · rw [hc.me, hc.cd, hc.ver]
-    exact safeWrite_sat hW (good_sf hW) ownFull_sf a _ _ _ (Or.inl ⟨rfl, rfl, rfl⟩)
-
-/-- `store_metadata`: never raises -/
-theorem storeMetadata_sat (hW : World π s lvl me R) (c : Cfg) (hc : CfgOK π me c) (a : Nat) :
-    Sat R (OwnG π me) (Sf π s lvl) (storeMetadata c a) (fun _ fs => Sf π s lvl fs) (fun _ _ => False) := by
-  unfold storeMetadata
-  refine Sat.tryCatch (E1 := fun _ fs => Sf π s lvl fs) ?_ (fun _ => .ret fun fs h => h)
-  refine Sat.bind (Q' := fun _ fs => Sf π s lvl fs) ?_ fun _ => ?_
-  · have := mkdirp_sat own_up' hW (good_sf hW) (pEntry a) (Or.inr (Or.inr (Or.inr (Or.inr ⟨a, rfl⟩))))
-      (Or.inr (Or.inr (Or.inr (Or.inr rfl))))
-    exact this.post (fun _ _ h => h.1) (fun _ _ h => h.1)
-  · rw [hc.me, hc.cd]
-    exact safeWrite_sat hW (good_sf hW) ownFull_sf a _ _ _ (Or.inr ⟨rfl, rfl, rfl⟩)
-
-
-/-! ### The cached call -/
-
-theorem world_true (hW : World π s lvl me R) : World π true lvl me R :=
-  ⟨hW.sub, fun h => by cases h⟩
-
-theorem good_init (hW : World π s lvl me R) : Good π s me R (fun fs => Inv π s fs ∧ TrustK π s fs) :=
-  ⟨(good_inv hW).stable.and (trust_stable hW),
-   fun fs o h ha hcode => ⟨inv_apply h.1 ha, fun hs i d hg hsame => by
-      rw [hcode] at hg
-      exact inv_apply (h.2 hs i d hg hsame) ha⟩,
-   fun fs h => h.1⟩
-
-/-- `_is_in_cache_and_valid`: answers `true` only when every result file is of the live version -/
-theorem isInCacheAndValid_sat (hW : World π s lvl me R) (c : Cfg) (hc : CfgOK π me c) (a : Nat) :
-    Sat R (OwnG π me) (fun fs => Sf π s lvl fs ∧ TrustK π s fs) (isInCacheAndValid c a)
-      (fun b fs => Sf π s lvl fs ∧ (b = true → Sf π true lvl fs)) (EL lvl) := by
-  unfold isInCacheAndValid
-  refine Sat.bind (checkPrevious_sat hW c hc) fun okc => ?_
-  cases okc with
-  | false => exact .ret fun fs h => ⟨h.1, fun e => by cases e⟩
-  | true =>
-    simp only [Bool.not_true, Bool.false_eq_true, if_false]
-    have hW' := world_true hW
-    have hS : Stable R (Sf π true lvl) := (good_sf hW').stable
-    have toT : ∀ fs, Sf π s lvl fs ∧ (True → Inv π true fs) → Sf π true lvl fs :=
-      fun fs h => ⟨h.2 trivial, h.1.2⟩
-    have clr : Sat R (OwnG π me) (Sf π true lvl) ((clearItem c a).bind fun _ => Prog.ret false)
-        (fun b fs => Sf π s lvl fs ∧ (b = true → Sf π true lvl fs)) (EL lvl) :=
-      Sat.bind (clearItem_sat hW' c a) fun _ => .ret fun fs h => ⟨sf_weaken h, fun e => by cases e⟩
-    refine (Sat.bind (exists_sat own_up' hS (pOut a)) fun e => ?_).pre toT
-    cases e with
-    | false => exact .ret fun fs h => ⟨sf_weaken h, fun e => by cases e⟩
-    | true =>
-      simp only [Bool.not_true, Bool.false_eq_true, if_false]
-      refine Sat.bind (getMetadata_sat hS c a) fun hasTime => ?_
-      cases hcb : c.callback with
-      | none => exact .ret fun fs h => ⟨sf_weaken h, fun _ => h⟩
-      | expires fresh =>
-        simp only
-        cases hasTime with
-        | false =>
-          simp only [Bool.not_false, if_true]
-          rw [hc.legacy]
-          exact clr
-        | true =>
-          simp only [Bool.not_true, Bool.false_eq_true, if_false]
-          cases fresh with
-          | true => exact .ret fun fs h => ⟨sf_weaken h, fun _ => h⟩
-          | false => exact clr
-
-/-- `_call` + `_after_call` + `_persist_input` of `__call__`: stores and returns `f(a)`; storing never raises -/
-theorem computeAndStore_sat (hW : World π s lvl me R) (c : Cfg) (hc : CfgOK π me c) (hsh : c.shelve = false) (a : Nat) :
-    Sat R (OwnG π me) (Sf π s lvl) (computeAndStore c a) (fun v fs => Sf π s lvl fs ∧ v = ⟨π.ver, a⟩) (EL lvl) := by
-  unfold computeAndStore
-  refine Sat.bind ((dumpItem_sat hW c hc a).post (fun _ _ h => h) (fun _ _ h => h.elim)) fun _ => ?_
-  refine Sat.bind ((storeMetadata_sat hW c hc a).post (fun _ _ h => h) (fun _ _ h => h.elim)) fun _ => ?_
-  rw [hsh]
-  exact .ret fun fs h => ⟨h, by rw [hc.ver]⟩
-
-/-- `MemorizedFunc.__call__` -/
-theorem cachedCall_sat (hW : World π s lvl me R) (c : Cfg) (hc : CfgOK π me c) (hsh : c.shelve = false) (a : Nat)
-    (hU : ∀ v, π.cd.unpickle (π.cd.pickle v) = some v) :
-    Sat R (OwnG π me) (fun fs => Sf π s lvl fs ∧ TrustK π s fs) (cachedCall c a)
-      (fun v fs => Inv π s fs ∧ v = ⟨π.ver, a⟩) (EL lvl) := by
-  unfold cachedCall
-  refine Sat.bind (isInCacheAndValid_sat hW c hc a) fun valid => ?_
-  have cs : Sat R (OwnG π me) (Sf π s lvl) (computeAndStore c a) (fun v fs => Inv π s fs ∧ v = ⟨π.ver, a⟩) (EL lvl) :=
-    (computeAndStore_sat hW c hc hsh a).post (fun _ _ h => ⟨h.1.1, h.2⟩) (fun _ _ h => h)
-  cases valid with
-  | false => exact cs.pre fun fs h => h.1
-  | true =>
-    simp only [if_true]
-    rw [hsh]
-    simp only [Bool.false_eq_true, if_false]
-    have hW' := world_true hW
-    refine Sat.bind (Q' := fun r fs => Sf π true lvl fs ∧ ∀ v, r = some v → v = ⟨π.ver, a⟩) ?_ fun r => ?_
-    · refine Sat.tryCatch (E1 := fun _ fs => Sf π true lvl fs) ?_ (fun _ => .ret fun fs h => ⟨h, fun v e => by cases e⟩)
-      refine (Sat.bind (loadItem_sat hW' c hc a hU) fun v => ?_).pre fun fs h => h.2 (by simp)
-      exact .ret fun fs h => ⟨h.1, fun v' e => by cases e; exact h.2⟩
-    · cases r with
-      | some v => exact .ret fun fs h => ⟨inv_weaken h.1.1, h.2 v rfl⟩
-      | none => exact cs.pre fun fs h => sf_weaken h.1
-
-/-- A fresh process: `Memory(location)`, `memory.cache(f)`, `f(a)`. -/
-theorem callProc_sat (hW : World π s lvl me R) (c : Cfg) (hc : CfgOK π me c) (hsh : c.shelve = false) (a : Nat)
-    (hU : ∀ v, π.cd.unpickle (π.cd.pickle v) = some v) :
-    Sat R (OwnG π me) (fun fs => Inv π s fs ∧ TrustK π s fs) (callProc c a)
-      (fun v fs => Inv π s fs ∧ v = ⟨π.ver, a⟩) (EL lvl) := by
-  unfold callProc
-  refine Sat.bind ((configure_sat own_up' hW (good_init hW) c).post (fun _ _ h => h.1) (E' := EL lvl) (fun _ _ h => h.2))
-    fun _ => ?_
-  refine Sat.bind ((ensureFuncDir_sat hW (good_init hW)).post (fun _ _ h => h) (E' := EL lvl) (fun _ _ h => h.2)) fun _ => ?_
-  exact (cachedCall_sat hW c hc hsh a hU).pre fun fs h => ⟨⟨h.1.1, h.2⟩, h.1.2⟩
-
-
-/-! ### Programs that only observe; `reduce_size` and `clear` -/
-
-def IsObs (o : Op) : Prop :=
-  (∃ p, o = .stat p) ∨ (∃ p, o = .openr p) ∨ (∃ p i, o = .read p i) ∨ (∃ p, o = .opendir p) ∨ (∃ p i, o = .readdir p i)
-
-inductive ObsOnly {α : Type} : Prog α → Prop
-  | ret (a : α) : ObsOnly (.ret a)
-  | raise (e : Err) : ObsOnly (.raise e)
-  | op (o : Op) (k : Res → Prog α) : IsObs o → (∀ r, ObsOnly (k r)) → ObsOnly (.op o k)
-
-theorem ObsOnly.bind {α β : Type} {p : Prog α} {f : α → Prog β} (hp : ObsOnly p) (hf : ∀ a, ObsOnly (f a)) :
-    ObsOnly (p.bind f) := by
-  induction hp with
-  | ret a => exact hf a
-  | raise e => exact .raise e
-  | op o k ho _ ih => exact .op o _ ho ih
-
-theorem isObs_not_write {o : Op} (h : IsObs o) : ∀ p i d, o ≠ .write p i d := by
-  intro p i d e
-  rcases h with ⟨_, rfl⟩ | ⟨_, rfl⟩ | ⟨_, _, rfl⟩ | ⟨_, rfl⟩ | ⟨_, _, rfl⟩ <;> cases e
-
-theorem obsOnly_sat {α : Type} {G : FS → Op → Prop} {P : FS → Prop} {p : Prog α}
-    (hG : ∀ fs o, (∀ p i d, o ≠ .write p i d) → (apply o fs).2 = fs → G fs o) (hP : Stable R P) (h : ObsOnly p) :
-    Sat R G P p (fun _ fs => P fs) (fun _ fs => P fs) := by
-  induction h with
-  | ret a => exact .ret fun fs h => h
-  | raise e => exact .raise fun fs h => h
-  | op o k ho _ ih =>
-    refine .op (fun _ fs => P fs) (fun fs h => ?_) (fun _ => hP) ih
-    have := observer_noop o fs ho
-    exact ⟨hG fs o (isObs_not_write ho) this, by rw [this]; exact h⟩
-
-theorem obsOnly_foldr_stat {α : Type} (l : List α) (f : α → Path) (tl : Prog Unit) (ht : ObsOnly tl) :
-    ObsOnly (l.foldr (fun d acc => Prog.op (.stat (f d)) fun _ => acc) tl) := by
-  induction l with
-  | nil => exact ht
-  | cons x r ih => exact .op _ _ (Or.inl ⟨_, rfl⟩) fun _ => ih
-
-theorem obsOnly_itemStats (a : Nat) (files : List (Name × Bool)) : ObsOnly (itemStats a files) := by
-  unfold itemStats
-  have sizes : ∀ fl : List (Name × Bool), ObsOnly (fl.foldr (fun nf acc =>
-      Prog.op (.stat (pEntry a ++ [nf.1])) fun r => if r == .yes then acc else Prog.ret false) (Prog.ret true)) := by
-    intro fl
-    induction fl with
-    | nil => exact .ret _
-    | cons x r ih =>
-      refine .op _ _ (Or.inl ⟨_, rfl⟩) fun res => ?_
-      by_cases h : (res == Res.yes) = true
-      · rw [if_pos h]; exact ih
-      · rw [if_neg h]; exact .ret _
-  refine .op _ _ (Or.inl ⟨_, rfl⟩) fun r => ?_
-  by_cases h : (r == Res.yes) = true
-  · simp only [h, if_true]; exact sizes files
-  · simp only [h, if_false]
-    refine .op _ _ (Or.inl ⟨_, rfl⟩) fun r' => ?_
-    by_cases h' : (r' == Res.yes) = true
-    · simp only [h', if_true]; exact sizes files
-    · simp only [h', if_false]; exact .ret _
-
-theorem obsOnly_walk (rank : Name → Nat) : ∀ (fuel : Nat) (p : Path), ObsOnly (walk rank fuel p) := by
-  intro fuel
-  induction fuel with
-  | zero => intro p; exact .ret _
-  | succ fuel ih =>
-    intro p
-    unfold walk
-    refine .op _ _ (Or.inr (Or.inr (Or.inr (Or.inl ⟨_, rfl⟩)))) fun r => ?_
-    cases r with
-    | fd i =>
-      unfold scandir
-      refine .op _ _ (Or.inr (Or.inr (Or.inr (Or.inr ⟨_, _, rfl⟩)))) fun r => ?_
-      have body : ∀ l : List (Name × Bool), ObsOnly (
-          (fun l : List (Name × Bool) =>
-            let dirs := l.filter (·.2)
-            let files := l.filter (fun x => !x.2)
-            let here : Prog (List Nat) :=
-              match p.getLast? with
-              | some (.entry a) => if p = pEntry a then (itemStats a files).bind fun b => Prog.ret (if b then [a] else []) else Prog.ret []
-              | _ => Prog.ret []
-            here.bind fun found =>
-            (dirs.reverse.foldr (fun d acc => Prog.op (.stat (p ++ [d.1])) fun _ => acc) (Prog.ret ())).bind fun _ =>
-            (dirs.foldr (fun d acc => (walk rank fuel (p ++ [d.1])).bind fun f1 => acc.bind fun f2 => Prog.ret (f1 ++ f2))
-              (Prog.ret [])).bind fun sub => Prog.ret (found ++ sub)) l) := by
-        intro l
-        simp only []
-        refine ObsOnly.bind ?_ fun found => ?_
-        · split
-          · split
-            · exact (obsOnly_itemStats _ _).bind fun _ => .ret _
-            · exact .ret _
-          · exact .ret _
-        · refine ObsOnly.bind (obsOnly_foldr_stat _ _ _ (.ret _)) fun _ => ?_
-          refine ObsOnly.bind ?_ fun _ => .ret _
-          generalize (l.filter (·.2)) = dl
-          induction dl with
-          | nil => exact .ret _
-          | cons x r ihl => exact (ih _).bind fun _ => ihl.bind fun _ => .ret _
-      cases r with
-      | names l => exact body _
-      | _ => exact body []
-    | _ => exact .ret _
-
-
-/-- what an evicting participant (`Memory.reduce_size`) guarantees -/
-abbrev EvictG (π : Par) (me : Nat) : FS → Op → Prop := fun fs o => Allowed π .evict (fun x => x = me) fs o
-
-theorem evict_up : ∀ fs o, Allowed π .calls (fun x => x = me) fs o → EvictG π me fs o :=
-  fun _ _ ha => ha.mono_level (Or.inl rfl)
-
-theorem rmGood_inv_entry_evict (hW : World π s lvl me R) (a : Nat) :
-    RmGood (R := R) (EvictG π me) (Inv π s) (pEntry a) := by
-  refine ⟨(good_inv hW).stable, fun fs t h ht => ?_, fun fs o hw e => .noop o hw e, fun fs t h ht => ?_,
-    fun fs t _ ht => .rmdirE a t (by decide) ht⟩
-  · have hb := below_trans (entry_below a) ht
-    exact ⟨inv_apply h (Allowed.unlinkC (π := π) (who := fun x => x = me) t rfl hb),
-           inv_apply h (Allowed.rmdirC (π := π) (who := fun x => x = me) t rfl hb)⟩
-  · by_cases hte : t = pEntry a
-    · subst hte
-      -- the entry directory itself is never a file: `unlink` on it changes nothing
-      refine .noop _ (by intro _ _ _ e; cases e) ?_
-      cases hg : fs.get (pEntry a) with
-      | none => simp [apply, hg]
-      | some nd =>
-        cases nd with
-        | dir j => simp [apply, hg]
-        | file i c => exact absurd (Or.inr (Or.inr (Or.inr (Or.inr ⟨a, rfl⟩)))) (h.typF _ _ _ hg)
-    · exact .unlinkE a t (by decide) ⟨ht, hte⟩
-
-/-- `Memory.reduce_size`: every call it makes is one an evicting participant may make; the invariant is kept -/
-theorem reduceProc_sat (hW : World π s lvl me R) (c : Cfg) (victims : List Nat) :
-    Sat R (EvictG π me) (Inv π s) (reduceProc c victims) (fun _ fs => Inv π s fs) (fun _ fs => Inv π s fs) := by
-  unfold reduceProc
-  have hst := (good_inv hW).stable
-  refine Sat.bind ((configure_sat evict_up hW (good_inv hW) c).post (fun _ _ h => h.1) (fun _ _ h => h.1)) fun _ => ?_
-  refine Sat.bind (obsOnly_sat (fun fs o hw e => .noop o hw e) hst (obsOnly_walk c.rank 6 pLoc)) fun found => ?_
-  generalize (victims.filter fun x => found.contains x) = vs
-  induction vs with
-  | nil => exact .ret fun fs h => h
-  | cons a rest ih =>
-    refine Sat.bind (Q' := fun _ fs => Inv π s fs) ?_ fun _ => ih
-    refine Sat.tryCatch (E1 := fun _ fs => Inv π s fs)
-      ((rmtree_sat (rmGood_inv_entry_evict hW a) c.rank false).post (fun _ _ h => h) (fun _ _ h => h.2)) fun e => ?_
-    by_cases he : e.isOSError = true
-    · rw [if_pos he]; exact .ret fun fs h => h
-    · rw [if_neg he]; exact .raise fun fs h => h
-
-theorem rmGood_inv_clear (hW : World π s lvl me R) (p0 : Path) (hb : Below pLoc p0) :
-    RmGood (R := R) (OwnG π me) (Inv π s) p0 :=
-  ⟨(good_inv hW).stable,
-   fun fs t h ht => ⟨inv_apply h (own_unlink (π := π) (me := me) hb ht), inv_apply h (own_rmdir (π := π) (me := me) hb ht)⟩,
-   fun fs o hw e => own_noop hw e,
-   fun fs t _ ht => own_unlink hb ht,
-   fun fs t _ ht => own_rmdir hb ht⟩
-
-/-- `disk.delete_folder` -/
-theorem deleteFolder_sat (hW : World π s lvl me R) (c : Cfg) (p0 : Path) (hb : Below pLoc p0) :
-    ∀ fuel, Sat R (OwnG π me) (Inv π s) (deleteFolder c p0 fuel) (fun _ fs => Inv π s fs) (fun _ fs => Inv π s fs) := by
-  have hst := (good_inv hW).stable
-  intro fuel
-  induction fuel with
-  | zero => exact .raise fun fs h => h
-  | succ fuel ih =>
-    unfold deleteFolder
-    refine Sat.obs (fun _ _ => True) (fun fs _ => own_noop (by intro _ _ _ e; cases e) (opendir_noop _ fs))
-      (opendir_noop _) (fun _ _ => trivial) hst (fun _ _ _ _ _ => trivial) fun r => ?_
-    cases r with
-    | fd i =>
-      unfold scandir
-      refine Sat.obs (fun _ _ => True) (fun fs _ => own_noop (by intro _ _ _ e; cases e) rfl)
-        (readdir_noop _ _) (fun _ _ => trivial) (hst.and fun _ _ _ _ => trivial) (fun _ _ _ _ _ => trivial) fun r => ?_
-      have body : Sat R (OwnG π me) (fun fs => (Inv π s fs ∧ True) ∧ True)
-          ((rmtree c.rank true p0).tryCatch fun e =>
-            if e.isOSError then (if fuel = 0 then Prog.raise e else deleteFolder c p0 fuel) else Prog.raise e)
-          (fun _ fs => Inv π s fs) (fun _ fs => Inv π s fs) := by
-        refine Sat.tryCatch (E1 := fun _ fs => Inv π s fs)
-          (((rmtree_sat (rmGood_inv_clear hW p0 hb) c.rank true).post (fun _ _ h => h) (fun _ _ h => h.2)).pre
-            fun fs h => h.1.1) fun e => ?_
-        by_cases he : e.isOSError = true
-        · rw [if_pos he]
-          by_cases hf : fuel = 0
-          · rw [if_pos hf]; exact .raise fun fs h => h
-          · rw [if_neg hf]; exact ih
-        · rw [if_neg he]; exact .raise fun fs h => h
-      cases r <;> exact body
-    | ok => exact .raise fun fs h => h.1
-    | yes => exact .raise fun fs h => h.1
-    | no => exact .raise fun fs h => h.1
-    | enoent => exact .raise fun fs h => h.1
-    | eexist => exact .raise fun fs h => h.1
-    | enotempty => exact .raise fun fs h => h.1
-    | eisdir => exact .raise fun fs h => h.1
-    | enotdir => exact .raise fun fs h => h.1
-    | data _ => exact .raise fun fs h => h.1
-    | names _ => exact .raise fun fs h => h.1
-
-theorem below_loc_snoc (n : Name) : Below pLoc (pLoc ++ [n]) :=
-  ⟨List.prefix_append _ _, by simp [pLoc]⟩
-
-/-- `Memory.clear()`: every call it makes is one a clearing participant may make; the invariant is kept -/
-theorem clearProc_sat (hW : World π s lvl me R) (c : Cfg) :
-    Sat R (OwnG π me) (Inv π s) (clearProc c) (fun _ fs => Inv π s fs) (fun _ fs => Inv π s fs) := by
-  unfold clearProc
-  have hst := (good_inv hW).stable
-  refine Sat.bind ((configure_sat own_up' hW (good_inv hW) c).post (fun _ _ h => h.1) (fun _ _ h => h.1)) fun _ => ?_
-  refine Sat.obs (fun _ _ => True) (fun fs _ => own_noop (by intro _ _ _ e; cases e) (opendir_noop _ fs))
-    (opendir_noop _) (fun _ _ => trivial) hst (fun _ _ _ _ _ => trivial) fun r => ?_
-  cases r with
-  | fd i =>
-    unfold scandir
-    refine Sat.obs (fun _ _ => True) (fun fs _ => own_noop (by intro _ _ _ e; cases e) rfl)
-      (readdir_noop _ _) (fun _ _ => trivial) (hst.and fun _ _ _ _ => trivial) (fun _ _ _ _ _ => trivial) fun r => ?_
-    have body : ∀ l : List (Name × Bool), Sat R (OwnG π me) (Inv π s)
-        (l.foldr (fun n acc =>
-          Prog.op (.stat (pLoc ++ [n.1])) fun r =>
-            (if r == .yes && n.2 then deleteFolder c (pLoc ++ [n.1]) 11 else Prog.ret ()).bind fun _ => acc) (Prog.ret ()))
-        (fun _ fs => Inv π s fs) (fun _ fs => Inv π s fs) := by
-      intro l
-      induction l with
-      | nil => exact .ret fun fs h => h
-      | cons n rest ihl =>
-        refine Sat.obs (fun _ _ => True) (fun fs _ => own_noop (by intro _ _ _ e; cases e) rfl) (stat_noop _)
-          (fun _ _ => trivial) hst (fun _ _ _ _ _ => trivial) fun r => ?_
-        refine Sat.bind (Q' := fun _ fs => Inv π s fs) ?_ fun _ => ihl
-        by_cases hc : (r == Res.yes && n.2) = true
-        · rw [if_pos hc]
-          exact (deleteFolder_sat hW c _ (below_loc_snoc n.1) 11).pre fun fs h => h.1
-        · rw [if_neg hc]; exact .ret fun fs h => h.1
-    cases r with
-    | names l => exact (body _).pre fun fs h => h.1.1
-    | _ => exact (body []).pre fun fs h => h.1.1
-  | ok => exact .raise fun fs h => h.1
-  | yes => exact .raise fun fs h => h.1
-  | no => exact .raise fun fs h => h.1
-  | enoent => exact .raise fun fs h => h.1
-  | eexist => exact .raise fun fs h => h.1
-  | enotempty => exact .raise fun fs h => h.1
-  | eisdir => exact .raise fun fs h => h.1
-  | enotdir => exact .raise fun fs h => h.1
-  | data _ => exact .raise fun fs h => h.1
-  | names _ => exact .raise fun fs h => h.1
 
 end
 end JoblibModel.Store
